@@ -25,6 +25,45 @@ query_prefixed = Fn(F, "query_prefixed", impl="RuledefMap", slot="defs", ret="re
     inserts=[Insert("            if i < MAX_PREFIX_SIZE &&", "            proof { assert forall|k: RuledefMapPrefix| k@ =~= trunc(prefix@, i as int) implies k == subprefix by { assert(k@ =~= subprefix@); assert(k =~= subprefix); } }\n", where="before")],
 )
 
+FW = "src/syntax/walker.rs"
+FT = "src/syntax/token.rs"
+WI = "<'src> Walker<'src>"
+w_nth = Fn(FW, "next_nth_token", impl=WI, impl_header=WI, slot="syntax", mode="stub", ret="res", key="Walker::next_nth_token",
+    ensures=[C("the_nth_raw_token", "res.kind == raw_kind(self, nth as int) && text_at(self, res.span) == raw_text(self, nth as int) && (!ignorable(res.kind) ==> raw_text(self, nth as int).len() >= 1)")])
+w_excerpt = Fn(FW, "get_span_excerpt", impl=WI, impl_header=WI, slot="syntax", mode="stub", ret="res", key="Walker::get_span_excerpt",
+    ensures=[C("the_text_under_the_span", "res@ == text_at(self, span)")])
+tk_ignorable = Fn(FT, "is_ignorable", impl="TokenKind", slot="syntax", mode="stub", ret="res", key="TokenKind::is_ignorable", ensures=[C("blank_comment_linebreak", "res == ignorable(self)")])
+tk_allowed = Fn(FT, "is_allowed_pattern_token", impl="TokenKind", slot="syntax", mode="stub", ret="res", key="TokenKind::is_allowed_pattern_token")
+W = "walker"
+CAT = "cat(walker, %s)"
+parse_prefix = Fn(F, "parse_prefix", impl="RuledefMap", slot="defs", ret="res", key="RuledefMap::parse_prefix", props=["C08", "C03"],
+    attrs=["#[verifier::loop_isolation(true)]"],
+    ensures=[C("the_first_four_characters_of_the_leading_run_of_tokens_lower_cased", "res@ =~= text_key(lead_chars(walker, 0, 4))", ["C08"])],
+    for_to_while=[2],
+    rewrites=[Rewrite("let mut prefix_index = 0;", "let mut prefix_index: usize = 0;", rule="R10", why="type ascription"),
+              Rewrite("let mut walker_index = 0;", "let mut walker_index: usize = 0;", rule="R10", why="type ascription"),
+              Rewrite("for c in walker.get_span_excerpt(token.span).chars()", "let verif_excerpt = walker.get_span_excerpt(token.span);\n                for c in verif_excerpt.chars()", rule="R16",
+                      why="the iterated string gets a name (R28 turns `NAME.chars()` into an index loop over its characters)"),
+              Rewrite("syntax::", "crate::syntax::", count=None, rule="R6", why="module path")],
+    loops={
+        1: Loop(invariant_except_break=[
+                C("a_run_of_tokens_so_far", "walker_index <= 4 && run_of_tokens(walker, walker_index as int) && walker_index <= cat(walker, walker_index as int).len()"),
+                C("key_so_far", "prefix_index == (if cat(walker, walker_index as int).len() < 4 { cat(walker, walker_index as int).len() } else { 4 })"
+                                " && forall|j: int| 0 <= j < 4 ==> #[trigger] prefix@[j] == (if j < prefix_index { spec_lower(cat(walker, walker_index as int)[j]) } else { '\\0' })"),
+                C("done_when_full", "prefix_index >= 4 ==> prefix@ =~= text_key(lead_chars(walker, 0, 4))"),
+            ], ensures=[C("the_key", "prefix@ =~= text_key(lead_chars(walker, 0, 4))")], decreases="4 - prefix_index",
+            body_end=" proof { lemma_lead_split(walker, walker_index as int, 4); lemma_cat_len(walker, walker_index as int); if prefix_index >= 4 { assert(prefix@ =~= text_key(lead_chars(walker, 0, 4))); } }"),
+        2: Loop(invariant=[
+                C("token", "verif_vec_2@ == crate::syntax::raw_text(walker, walker_index - 1) && verif_vec_2@.len() >= 1 && verif_next_2 <= verif_vec_2@.len() && 1 <= walker_index <= 4 && prefix_index <= 4"
+                           " && cat(walker, walker_index as int) == cat(walker, walker_index - 1) + verif_vec_2@ && walker_index - 1 <= cat(walker, walker_index - 1).len() && run_of_tokens(walker, walker_index as int)"),
+                C("key_so_far", "prefix_index == (if cat(walker, walker_index - 1).len() + verif_next_2 < 4 { cat(walker, walker_index - 1).len() + verif_next_2 } else { 4 })"
+                                " && forall|j: int| 0 <= j < 4 ==> #[trigger] prefix@[j] == (if j < prefix_index { spec_lower(cat(walker, walker_index as int)[j]) } else { '\\0' })"),
+            ], ensures=[C("full_or_token_used_up", "prefix_index >= 4 || verif_next_2 == verif_vec_2@.len()")], decreases="verif_vec_2@.len() - verif_next_2"),
+    },
+    inserts=[Insert("walker_index += 1;", "\n            proof { lemma_cat_len(walker, walker_index - 1); assert(cat(walker, walker_index as int) == cat(walker, walker_index - 1) + crate::syntax::raw_text(walker, walker_index - 1)); }", where="after"),
+             Insert("            else\n            {\n", "                proof { lemma_lead_split(walker, walker_index - 1, 4); assert(lead_chars(walker, walker_index - 1, (4 - (walker_index - 1)) as nat) =~= Seq::<char>::empty()); assert(prefix@ =~= text_key(lead_chars(walker, 0, 4))); }\n", where="after")],
+)
+
 FRD = "src/asm/defs/ruledef.rs"
 insert = Fn(F, "insert", impl="RuledefMap", slot="defs", props=["C08", "C03"],
     ensures=[
@@ -103,7 +142,7 @@ UNIT = Unit(
         Type(F, "struct", "RuledefMapEntry", slot="defs", derive="Clone, Copy"),
         query_prefixed,
         Type(FRD, "struct", "Rule", slot="defs"), Type(FRD, "type", "RulePattern", slot="defs"), Type(FRD, "enum", "RulePatternPart", slot="defs"),
-        insert,
+        insert, Type(FT, "struct", "Token", slot="syntax", derive="drop"), Type(FT, "enum", "TokenKind", slot="syntax", derive="Clone, Copy"), w_nth, w_excerpt, tk_ignorable, tk_allowed, parse_prefix,
         Type(FRD, "struct", "Ruledef", slot="defs"), Type("src/asm/defs/mod.rs", "struct", "DefList", slot="defs"), get_rule, build,
     ] + [f.in_slot("defs") for f in deflist_fns("verify", "defs") if f.name in ("get", "len")],
     serves=["C08", "C03"],
